@@ -99,7 +99,7 @@ Record ecase := mkcase {
   c_dirs : list path;
   c_includes : list (str * list str);              (* text handed to the parser -> Include filenames *)
   c_unparsable : list str;
-  c_globs : list (path * list path);               (* pattern -> glob.glob(pattern, recursive=True) *)
+  c_globs : list (path * list path);               (* normpath(pattern) -> normpath of each match of glob.glob(pattern, recursive=True) *)
   c_mode : Z;                                      (* 0 = edit_file, 1 = edit_file_recursive *)
   c_root : path;
   c_body : option (list (path * str));             (* dict left by the body, printed; None = raised *)
@@ -116,7 +116,9 @@ Definition world_of (c : ecase) : world :=
           (fun t => if mem t (c_unparsable c) then None else Some t)
           (fun m => m)
           (fun m => match lookup m (c_includes c) with Some l => l | None => [] end)
-          (fun pat => match lookup pat (c_globs c) with Some l => l | None => [] end)
+          (* the table is keyed by the normalised pattern and holds normalised matches: spelling a
+             pattern "./x" or "x" is the same question to glob, and matches are normalised by the code *)
+          (fun pat => match lookup (px_normpath pat) (c_globs c) with Some l => l | None => [] end)
           px_normpath px_dirname px_join px_ppath (px_canon (c_cwd c))
           (c_translate c) (c_guard c).
 
